@@ -471,7 +471,11 @@ class Connection:
         COM_STMT_SEND_LONG_DATA sends the data for a column.
         """
         com_stmt_send_long_data = packets.parse_com_stmt_send_long_data(data)
-        stmt = self.get_stmt(com_stmt_send_long_data.stmt_id)
+        stmt = self.prepared_stmts.get(com_stmt_send_long_data.stmt_id)
+        if stmt is None:
+            # This command has no response, so an unknown statement can't be reported
+            # here: an ERR packet would be taken for the response to the next command.
+            return
         if stmt.param_buffers is None:
             stmt.param_buffers = {}
         buffer = stmt.param_buffers.setdefault(
